@@ -109,6 +109,8 @@ function transform(file, src) {
   if (!CONST_ENUMS) CONST_ENUMS = scanConstEnums(SRC_ROOT)
   for (const [name, members] of CONST_ENUMS) {
     out = out.replace(new RegExp('(^|[^\\w$.])' + name + '\\.(\\w+)(?![\\w$])', 'g'), (all, pre, mem) => (members.has(mem) ? `${pre}(${members.get(mem)})` : all))
+    // (the repository's test helpers reach them through a namespace import)
+    out = out.replace(new RegExp('(^|[^\\w$.])glassEasel\\.' + name + '\\.(\\w+)(?![\\w$])', 'g'), (all, pre, mem) => (members.has(mem) ? `${pre}(${members.get(mem)})` : all))
   }
   // 4. bare side-effect imports produced by stripping all-type imports
   out = out.replace(/^import\s+['"][^'"]+['"];?\s*$/gm, '')
